@@ -37,7 +37,8 @@ observe.register_formats()
 
 def cfg():
     return sg.Cfg(depth=3, descriptions=True,
-                  titles=["Foo", "Bar", "my title", "a1b"] if not findings.is_open(PID, "dedupe-suffix-reformatted")
+                  titles=["Foo", "Bar", "my title", "a1b", "object", "string", "Foo_1", "none", "日本"]
+                  if not findings.is_open(PID, "dedupe-suffix-reformatted")
                   else None,
                   unique_titles=findings.is_open(PID, "dedupe-suffix-reformatted"))
 
